@@ -597,6 +597,12 @@ func (g *ArtGen) media(inText bool) {
 	}
 	k := kinds[g.r.Intn(len(kinds))]
 	g.L.Kinds[k]++
+	if !inText && k != "figure" && k != "twitter" && g.r.Chance(1, 5) {
+		// wordless wrappers with line breaks / rules next to the media element
+		w := [][2]string{{"<div><p>", "<br></p></div>\n"}, {"<section><p><br><br></p>", "</section>\n"}, {"<div><div>", "<hr></div></div>\n"}, {"<div><p><br>", "</p></div>\n"}}[g.r.Intn(4)]
+		g.w(w[0])
+		defer g.w(w[1])
+	}
 	switch k {
 	case "img":
 		s := g.img("image")
